@@ -22,6 +22,7 @@ REG = {
     "sumov": {"op": "reg_fn", "name": "sum", "beh": {"id": 506, "ret": "tag"}},
 }
 FNS = {"last": {"id": 9, "log": False, "ret": "last"}}
+PFN = {"op": "reg_fn", "name": "pfn", "beh": {"id": 599, "ret": "last"}}
 
 
 def make_pool(rnd, n):
@@ -64,7 +65,21 @@ def make_pool(rnd, n):
                 tw = text
             if tw != text:
                 pool.append((tw, vars_))
-    return pool[:n]
+    pool = pool[:n]
+    for _ in range(12):
+        L = rnd.randint(3, 12)
+        rest = "".join(rnd.choice("0123456789") for _ in range(L - 1))
+        if rnd.random() < 0.6 and L > 3:
+            d = rnd.randint(1, L - 2)
+            rest = rest[:d] + "." + rest[d + 1:]
+        da, db = rnd.choice([("1", "9"), ("0", "8"), ("2", "6"), ("3", "7"), ("1", "3"), ("4", "5"), ("1", "5"), ("2", "3")])
+        tmpl = rnd.choice(["%s - 1", "amount > %s", "%s", "x = %s; x"])
+        vars_ = {"amount": ["n", "50000", 0]}
+        pool.append((tmpl % (da + rest), vars_))
+        pool.append((tmpl % (db + rest), vars_))
+    # a registered function that panics when asked to (fault injection): other evaluations must not notice
+    pool.append(("pfn(1)", {}))
+    return pool
 
 
 def key_of(pi, regs):
@@ -78,7 +93,7 @@ def cmp_fields(r):
 
 
 def run_alone(wd, name, profile, text, vars_, regs):
-    steps = [REG[w] for w in regs] + [{"op": "ctx", "id": 0, "vars": vars_, "fns": FNS}, {"op": "exec", "ctx": 0, "text": text, "want": "ae"}]
+    steps = [PFN] + [REG[w] for w in regs] + [{"op": "ctx", "id": 0, "vars": vars_, "fns": FNS}, {"op": "exec", "ctx": 0, "text": text, "want": "ae"}]
     run = common.run_vexec(steps, wd, name, profile)
     st = run.steps()
     return cmp_fields(st[-1]) if run.ended and st else None
@@ -140,7 +155,7 @@ def run_shard(desc):
                     meta.append(pi)
                 plans.append(plan)
                 metas.append(meta)
-            steps = [REG[w] for w in regs] + [{"op": "threads", "plans": plans, "jitter_ns": [rnd.randint(0, 20000) for _ in range(T)]}]
+            steps = [PFN] + [REG[w] for w in regs] + [{"op": "threads", "plans": plans, "jitter_ns": [rnd.randint(0, 20000) for _ in range(T)]}]
             run = common.run_vexec(steps, wd, "thr-%d-%d" % (si, h), profile, timeout=600)
             kind_, detail = common.crash_verdict(run, "threaded history")
             st = run.steps()
@@ -161,7 +176,7 @@ def run_shard(desc):
                         judge("threaded", pi, regs, recs[2 * j + 1], j, "%d-thread" % T)
             continue
         # sequential history
-        steps, plan = [], []
+        steps, plan = [PFN], [None]
         regs = []
         to_reg = rnd.sample(WORDS, rnd.randint(0, 5))
         reg_at = sorted(rnd.sample(range(10, n), len(to_reg)))
@@ -177,6 +192,10 @@ def run_shard(desc):
             pi = rnd.randrange(len(pool))
             cid += 1
             k = rnd.random()
+            if rnd.random() < 0.02:
+                # some *other* evaluation whose registered-function handler panics (contained by the caller): not judged itself
+                steps.append({"op": "exec", "text": "pfn(7) + min(1, 2)", "fault": {"k": 1, "kind": "panic"}})
+                plan.append(None)
             if k < 0.12:
                 # parse-only step bracketed by snapshots of a live context
                 steps.append({"op": "ctx", "id": cid, "vars": pool[pi][1], "fns": FNS})
